@@ -199,6 +199,12 @@ def validate_def(h, crate, i, d, rng, widths_fn, count):
     bad = []
     refbad = []
     for (cps, rho, pp, script, err), nat in zip(cases, outs):
+        if nat == 'HANG':
+            # the natively compiled lexer does not return on this input: no need to ask the executor
+            ref = '|'.join(SP.ref_run_concrete(d, cps, rho, script, err, len(cps) + 2, widths))
+            refbad.append({'input': cps, 'rho': rho, 'script': script, 'native': 'HANG (next() did not return within 10 s)', 'reference': ref, 'hang': True,
+                           'driver_line': C.drv_line(i, rho, pp, err, len(cps) + 2, ctor, 255, script, cps)})
+            continue
         mine = '|'.join(ST.concrete_run(h, cps, rho, pp, script, err, len(cps) + 2, widths))
         if mine != nat:
             bad.append({'input': cps, 'rho': rho, 'prepeek': pp, 'script': script, 'native': nat, 'executor': mine})
@@ -357,6 +363,16 @@ def run_lex(rep, prop, extra_coverage=None, budget_override=None):
                     rep.inconc('validation of the executor on %s: %s' % (defs[i].name, str(e)[:500]))
                     continue
                 validated += n
+                for hb in [x for x in refbad if x.get('hang')][:1]:
+                    asp = {'progress'}
+                    if any(SP.ends_in_eof(r.regex) for _, rs_ in defs[i].rulesets for r in rs_):
+                        asp.add('eof')
+                    if prop in ST.props_of(asp):
+                        import hashlib
+                        rep.violation('hang ' + defs[i].name, '%s: next() of the natively compiled lexer does not return; input %r from rule set %s' % (defs[i].name, ''.join(chr(c) for c in hb['input']), defs[i].rs_names()[hb['rho']]),
+                                      {'property': prop, 'definition': defs[i].lexer_text('L%d' % i).split('\n'), 'replay': {'driver_line': hb['driver_line'], 'reference': hb['reference'].split('|')}, 'input': hb['input']})
+                    else:
+                        rep.inconc('%s: the natively compiled lexer does not return on input %r (a matter of %s); no verdict for %s' % (defs[i].name, hb['input'], '/'.join(sorted(ST.props_of(asp))), prop))
                 for b in bad[:2]:
                     rep.inconc('MIR executor and native code disagree on a concrete input (translator defect, no verdict): %r' % (b,))
             if rep.inconclusive:
